@@ -33,7 +33,7 @@ SYSTEMATIC = [
 
 def gen_nests(ck: Check):
     for n in SYSTEMATIC:
-        yield "systematic", n
+        yield "systematic", L.normalize(n)
     for _ in range(160 if ck.quick else 2000):
         yield "random", L.gen_tree(ck.rng, maxdepth=3, lengths=(0, 1, 2, 3), width=3)
 
@@ -85,7 +85,8 @@ def run(ck: Check) -> None:
         "18 systematic nests + seeded random trees (depth <= 3, up to 3 children) over text with 1-4 byte characters, {{ var }}, assign, "
         "capture, ifchanged, for, tablerow, include, include-with-array, render, render-for and macro calls; for each, the unlimited "
         "output size S is measured and output_stream_limit swept over 0..2S (every value when 2S <= 40, else 25 values incl. S-1, S, S+1), "
-        "and local_namespace_limit swept over 0, every observed namespace size t (t-1, t), and 2*max; sync and async. "
+        "and local_namespace_limit swept over 0, every observed namespace size t (t-1, t), and 2*max; sync and async; "
+        "output limits 0, S/2, S-1, S and three namespace limits also in WARN and LAX mode (errors dropped per top-level node). "
         "Non-trivial = the render writes or assigns something; distinct = distinct (nest, limits)."
     )
     ck.exhaustive = False
@@ -97,7 +98,7 @@ def run(ck: Check) -> None:
         "modelled not verified: str.encode('utf-8') length (1/2/3/4-byte rule), StringIO, dict update order",
     ]
     ck.assumptions = [
-        "Mode.STRICT; values are strings; texts contain no whitespace-only literal; no break/continue; cycle, increment and extends/block are outside the model",
+        "values are strings; texts contain no whitespace-only literal; no break/continue; cycle, increment and extends/block are outside the model",
         "sys.getsizeof(value) does not change between the assignment and later namespace checks",
     ]
     ck.proof()
@@ -135,20 +136,33 @@ def run(ck: Check) -> None:
             ck.note_case((nest, lim.key()), nontrivial=S > 0)
             ck.count("out." + ("raised" if s[0] == "err" else "completed"))
             add(nest, lim, printed, s, sizes, judge_out(limit, S, s, a), {"async": a, "unlimited_bytes": S, "kind": "out"})
-        # the bound is about EVERY completed render: in lax and warn mode the limit error is dropped per top-level node, the
-        # render completes, and what it returns must still be within the limit (oracle only: the model is the strict engine)
-        for limit in sorted({0, S // 2, S - 1} - {-1}):
-            for mode in ("LAX", "WARN"):
-                for use_async in (False, True):
-                    o = lax_output(printed, limit, mode, use_async)
-                    ck.note_case((nest, limit, mode, use_async), nontrivial=S > limit)
-                    ck.count(f"out.{mode.lower()}." + ("completed" if o[0] == "out" else "raised"))
+        # the bound is about EVERY completed render: in warn and lax mode the limit error is dropped per top-level node, the
+        # render completes, and what it returns must still be within the limit (oracle AND model: Limits.run_prog in that mode)
+        for limit in sorted({0, S // 2, S - 1, S} - {-1}):
+            for mode in ("lax", "warn"):
+                lim = L.Limits(out=limit, mode=mode)
+                s, sizes = L.run_impl(nest, lim, False, printed)
+                a, _ = L.run_impl(nest, lim, True, printed)
+                ck.note_case((nest, lim.key()), nontrivial=S > limit)
+                ck.count(f"out.{mode}." + ("completed" if s[0] == "out" else "raised"))
+                v = None
+                if s != a:
+                    v = (f"c07-{mode}-sync-async-differ", f"sync {s[:2]} but async {a[:2]}")
+                for o, use_async in ((s, False), (a, True)):
                     if o[0] == "out" and L.utf8(o[1]) > limit:
-                        ck.violation("impl-violation", f"c07-{mode.lower()}-output-exceeds-limit",
-                                     f"{printed[0]!r} partials {printed[1]!r} in {mode} mode ({'async' if use_async else 'sync'}) with "
-                                     f"output_stream_limit {limit}: completed with {L.utf8(o[1])} bytes",
-                                     {"kind": "lax-out", "template": printed[0], "partials": printed[1], "data": printed[2], "limit": limit, "mode": mode,
-                                      "async": use_async, "bytes": L.utf8(o[1])})
+                        v = (f"c07-{mode}-output-exceeds-limit", f"in {mode.upper()} mode ({'async' if use_async else 'sync'}) completed with "
+                             f"{L.utf8(o[1])} bytes under output_stream_limit {limit}")
+                        ck.violation("impl-violation", v[0], f"{printed[0]!r} partials {printed[1]!r}: {v[1]}",
+                                     {"kind": "lax-out", "template": printed[0], "partials": printed[1], "data": printed[2], "limit": limit,
+                                      "mode": mode.upper(), "async": use_async, "bytes": L.utf8(o[1])})
+                        break
+                else:
+                    if v is not None:
+                        add(nest, lim, printed, s, sizes, v, {"async": a, "kind": "out"})
+                        continue
+                if s[0] == "err" and s[1].startswith("other:"):
+                    continue
+                sw.add(lim, sizes, s, explained=v is not None)
         big, _, btrue = L.run_impl(nest, L.Limits(ns=BIG), False, printed, want_true=True)
         if big[0] != "out" or not btrue:
             continue
@@ -167,6 +181,22 @@ def run(ck: Check) -> None:
             ns_log = s[2] if s[0] == "out" else []
             add(nest, lim, printed, s, sizes, judge_ns(limit, s, a, true_log, ns_log),
                 {"async": a, "measured": true_log, "kind": "ns"})
+        # warn / lax: a refused assignment is dropped with its error; the namespaces must still never hold more than the limit
+        for limit in sorted({nsvals[0], nsvals[len(nsvals) // 2], nsvals[-2] if len(nsvals) > 1 else nsvals[0]}):
+            for mode in ("lax", "warn"):
+                lim = L.Limits(ns=limit, mode=mode)
+                s, sizes, true_log = L.run_impl(nest, lim, False, printed, want_true=True)
+                a, _, atrue = L.run_impl(nest, lim, True, printed, want_true=True)
+                ck.note_case((nest, lim.key()), nontrivial=True)
+                ck.count(f"ns.{mode}." + ("completed" if s[0] == "out" else "raised"))
+                v = None
+                if s != a:
+                    v = (f"c07-{mode}-sync-async-differ", f"sync {s[:2]} but async {a[:2]}")
+                elif s[0] == "out" and any(t > limit for t in true_log + atrue):
+                    v = (f"c07-{mode}-namespace-exceeds-limit",
+                         f"completed in {mode.upper()} mode although the local namespaces held {max(true_log + atrue)} measured bytes "
+                         f"under local_namespace_limit {limit} (sizes after each assignment, refused ones included: {true_log})")
+                add(nest, lim, printed, s, sizes, v, {"async": a, "measured": true_log, "kind": "ns-tolerant"})
     g = sw.groups[len(sw.groups) // 2]
     r = g[2][len(g[2]) // 2]
     ck.sample({"template": g[1][0], "partials": g[1][1], "limits": r[0].as_dict(), "observed": r[2][:2], "measured_sizes": r[1]})
@@ -201,6 +231,11 @@ def replay(data) -> int:
     print("template:", printed[0], "partials:", printed[1], "limits:", lim.as_dict())
     print("sync :", s)
     print("async:", a)
+    if case.get("kind") == "ns-tolerant":
+        print("measured namespace sizes after each assignment (refused ones included):", true_log)
+        bad = s[0] == "out" and any(t > lim.ns for t in true_log)
+        print(("VIOLATION reproduced" if bad or s != a else "not reproduced") + f" property={data['property']}")
+        return 1 if bad or s != a else 0
     if case.get("kind") == "ns":
         print("measured namespace sizes after each assignment:", true_log)
         v = judge_ns(lim.ns, s, a, true_log, s[2] if s[0] == "out" else [])
